@@ -247,7 +247,9 @@ impl CatWorld {
 
     fn ensure_root(&mut self) -> Result<(), String> {
         if self.root.is_none() {
-            let c = self.node.tcp_client();
+            // with the HTTP transport on, the administrative connection speaks HTTP/JSON (the extra
+            // clients that join groups stay on TCP: membership needs a connection)
+            let c = if self.tr.http { self.node.http_client() } else { self.node.tcp_client() };
             let pw = self.root_password.clone();
             let r = self.node.block_on(async { c.login_user("iggy", &pw).await });
             if let Err(e) = r {
